@@ -8,6 +8,7 @@ import FsVerif.Model.PosStore
 import FsVerif.Model.BufStore
 import FsVerif.Model.PrioReq
 import FsVerif.Model.FleetStore
+import FsVerif.Model.SlotBelt
 import FsVerif.Model.Node.Source
 import FsVerif.Model.Node.Machine
 import FsVerif.Model.Node.Pack
@@ -41,6 +42,7 @@ inductive M where
   | mac (s : MacState)
   | pack (s : PackState)
   | fleet (s : FleetStore)
+  | slot (s : SlotBelt)
 
 def showRes : PosStore.Res → String
   | .ok => "ok" | .tok i => s!"tok {i}" | .item x => s!"item {x.id}"
@@ -93,6 +95,25 @@ def fleetOp (w : List String) : Option FleetStore.Op :=
   | ["ev"] => some .ev
   | ["final"] => some .final
   | _ => none
+
+def slotOp (w : List String) : Option SlotBelt.Op :=
+  match w with
+  | ["rp", p] => do pure (.reservePut (← parseNat p))
+  | ["rg", p] => do pure (.reserveGet (← parseNat p))
+  | ["rp", p, _] => do pure (.reservePut (← parseNat p))
+  | ["rg", p, _, _] => do pure (.reserveGet (← parseNat p))
+  | ["put", p, t, i, k, _] => do pure (.put (← parseNat p) (← parseNat t) { id := (← parseNat i), kind := (← parseNat k) })
+  | ["get", p, t] => do pure (.get (← parseNat p) (← parseNat t))
+  | ["cp", t] => do pure (.cancelPut (← parseNat t))
+  | ["cg", t] => do pure (.cancelGet (← parseNat t))
+  | ["adv", d] => do pure (.adv (← parseNat d))
+  | ["ev"] => some .ev
+  | ["final"] => some .final
+  | _ => none
+
+def showResS : SlotBelt.Res → String
+  | .ok => "ok" | .tok i => s!"tok {i}" | .item x => s!"item {x.id}"
+  | .err e => s!"err {e.name}" | .unit => "-"
 
 def prqOp (w : List String) : Option PrioReq.Op :=
   match w with
@@ -196,6 +217,14 @@ def stepLine (m : M) (line : String) : M × String :=
     match parseCap cap, parseNat delay, parseNat transit with
     | some c, some d, some tr => (.fleet (FleetStore.init { cap := c, delay := d, transit := tr }), "new")
     | _, _, _ => (m, "bad-op")
+  | ["new", "slot", cap, delay, _] =>
+    match parseNat cap, parseNat delay with
+    | some c, some d => (.slot (SlotBelt.init { cap := c, delay := d }), "new")
+    | _, _ => (m, "bad-op")
+  | ["new", "slot", cap, delay] =>
+    match parseNat cap, parseNat delay with
+    | some c, some d => (.slot (SlotBelt.init { cap := c, delay := d }), "new")
+    | _, _ => (m, "bad-op")
   | ["new", "prq", cap] =>
     match parseNat cap with
     | some c => (.prq (PrioReq.init c), "new")
@@ -257,6 +286,19 @@ def stepLine (m : M) (line : String) : M × String :=
         let s' := s.step op
         (.prq s', if s'.err then "err ValueError" else s!"req {s.nextId} | {showPFired s'.fired} | {s'.items.length}")
       | none => (m, "bad-op")
+    | .slot s =>
+      match w with
+      | ["stat"] => (m, s!"stat {s.avgNum} {s.avgDen} {s.level} {s.now}")
+      | ["probe", "occ"] => (m, s!"probe {s.level}")
+      | ["probe", "ready"] => (m, s!"probe {showNats (s.ready.map (·.item.id))}")
+      | ["probe", _] => (m, "probe skip")
+      | _ =>
+        match slotOp w with
+        | some op =>
+          let (s', r) := s.step op
+          let head := if op == .ev then s!"t={s'.now}" else showResS r
+          (.slot s', s!"{head} | {showFired s'.fired} | {showNats s'.newReady}" ++ (if s'.crashed then " CRASHED" else "") ++ (if s'.flagged then " FLAGGED" else ""))
+        | none => (m, "bad-op")
     | .fleet s =>
       match w with
       | ["stat"] => (m, s!"stat {s.b.avgNum} {s.b.avgDen} {s.b.level} {s.b.now}")
